@@ -722,10 +722,10 @@ impl Ctx {
                         }
                     };
                     let mut mb = make();
-                    // encodings of variable length (ECDSA's DER pair of integers): every sixteenth scenario is signed
+                    // encodings of variable length (ECDSA's DER pair of integers): every sixteenth scenario of each shard is signed
                     // again until an unusually SHORT encoding (below the common 70..72 bytes) turns up
                     let ecdsa_first = matches!(sks[0].public().scheme(), in_toto::crypto::SignatureScheme::EcdsaP256Sha256);
-                    if ecdsa_first && scn["i"].as_u64().unwrap_or(1) % 16 == 0 {
+                    if ecdsa_first && (scn["i"].as_u64().unwrap_or(16) / 16) % 16 == 0 {
                         for _ in 0..5000 {
                             if mb.signatures.iter().any(|s| s.value().as_bytes().len() < 70) {
                                 break;
